@@ -14,6 +14,7 @@ from text_common import trivia_cases, run_and_judge, text_of, lits, rejudge_with
 
 PID = "C18"
 EXCEPT = ["KEEP", "^--!"]
+EXCEPT_CI = ["(?i)copyright", "^--!", "KEEP"]
 END_TEXTS = ["x", "a\nb", "[x[ hi", "[[ z", "]]", "--", "[=[ ]] ]=]", "-"]
 FILES = ["", "return 1", "local a = 1 -- tail", "local a = 1\n-- c\nreturn a\n", "--[[ first ]] f()\n\nreturn f --[=[ last ]=]"]
 
@@ -24,7 +25,8 @@ def esc(s):
 
 def build_cases(tier, rng):
     modes = ["single", "eof"]
-    trivia, st, gen = trivia_cases(modes)
+    # quick tier: one residue class in two of the single placements (drawn from the seed inside the specification)
+    trivia, st, gen = trivia_cases(modes, stride=(2 if tier == "quick" else 1), offset=rng.randrange(2))
     if tier == "thorough":
         extra, st2, gen2 = trivia_cases(["same", "adjacent"])
         trivia += vlib.sample(extra, 20000, rng)
@@ -37,6 +39,10 @@ def build_cases(tier, rng):
         cases.append(dict(base, id="rx%d" % k, kind="remove_comments",
                           rules="[{ rule: 'remove_comments', except: %s }]" % json.dumps(EXCEPT), **{"except": lits(EXCEPT)}))
         cases.append(dict(base, id="rs%d" % k, kind="remove_spaces", rules="['remove_spaces']"))
+        if k % 3 == 0 or c["k1"] >= 19:
+            # several patterns, one of them case-insensitive: the flag of one pattern must not reach the others
+            cases.append(dict(base, id="ri%d" % k, kind="remove_comments",
+                              rules="[{ rule: 'remove_comments', except: %s }]" % json.dumps(EXCEPT_CI), **{"except": lits(EXCEPT_CI)}))
     # append_text_comment
     g = tlc("mc/MC_Comments", workers=8, timeout=1800, env={"MAXLEN": 3 if tier == "quick" else 4}, xmx="8g")
     tlc_ok(g, "MC_Comments")
